@@ -202,7 +202,7 @@ class ImageStack(FrameIndex, TiffExport, VideoExport):
             maximum y pixel (exclusive, optional)
         """
         data = self._src.with_roi(np.array([x_min, x_max, y_min, y_max]))
-        return self.from_dataset(data, self.name, self._start_idx, self._stop_idx)
+        return self.from_dataset(data, self.name, self._start_idx, self._stop_idx, self._step)
 
     def define_tether(self, point1, point2):
         """Returns a copy of the stack rotated such that the tether defined by `point_1` and
@@ -218,7 +218,7 @@ class ImageStack(FrameIndex, TiffExport, VideoExport):
             (x, y) coordinates of the tether end point
         """
         data = self._src.with_tether(np.asarray((point1, point2)) / self._pixel_calibration_factors)
-        return self.from_dataset(data, self.name, self._start_idx, self._stop_idx)
+        return self.from_dataset(data, self.name, self._start_idx, self._stop_idx, self._step)
 
     def to_kymo(self, half_window, reduce=np.sum) -> Kymo:
         """Convert this :class:`ImageStack` to a :class:`~lumicks.pylake.kymo.Kymo` by sampling
